@@ -9,25 +9,29 @@ import PV.C19.Lemmas
                          `pyLayout` say what CPython's `%` does.
   Vocabulary (`Defs.lean`): `erase` reads a model split as a reference split (indices dropped, lone
   `.` = precision 0), `resolve` reads a quantity (`*` is left to the caller by the library and counts
-  as absent), `InDomain` is the decidable domain outside of which the splitter is known to deviate;
-  each remaining deviation is witnessed below.  (`format_bytes` was repaired in /repo commit 86620af;
-  its model is total and `bytes_eq` is unconditional.)
+  as absent), `InDomain` is a length bound (templates shorter than 2^31-1 characters).
+  All four former deviations are repaired in /repo (86620af `format_bytes`, 1c70d07 float precision,
+  4850e50 widths as `isize`, d7ac332 `%b` in text templates): every theorem below is unconditional
+  on its domain, the former witnesses are regression facts.
 -/
 namespace PV.C19
 open Spec
 
 /-! ## splitting a template -/
 
-/-- The splitter equals Python's on every bytes template of the domain: same literal pieces (`%%`
-    merged in), same conversion specifiers (key with nested parentheses, flag set, width, precision,
-    ignored length modifier, type), same rejections, same index for an unsupported character;
-    and it never panics there. -/
-theorem split_eq_bytes (t : List Nat) (h : InDomain t) :
-    erase (parseTemplate t) = some (pySplit .bytes t) := by
-  obtain ⟨hlen, hs⟩ := h
-  have := parseLoop_eq (t.length + 1) t 0 [] 0 t.length t.length (by omega) (by omega) (by omega) hlen hs
+/-- **The splitter equals Python's on every template of the domain, text and bytes**: same literal
+    pieces (`%%` merged in), same conversion specifiers (key with nested parentheses, flag set, width,
+    precision, ignored length modifier, type), same rejections (incomplete and unsupported specifiers,
+    `%b` in a text template, a width above `isize::MAX`, a precision above `i32::MAX`), same index for an
+    unsupported character; and it never panics there.  The domain is a length bound only.
+    (Before d7ac332 / 4850e50 the text parser accepted `%b` and both parsers rejected widths above `i32::MAX`: this was
+    `split_eq_bytes` on a smaller domain plus `split_eq_text_partial` with a hypothesis.) -/
+theorem split_eq (m : Mode) (t : List Nat) (h : InDomain t) :
+    erase (parseTemplate (m == .text) t) = some (pySplit m t) := by
+  have hlen : t.length < i32Max := h
+  have := parseLoop_eq m (t.length + 1) t 0 [] 0 t.length t.length (by omega) (by omega) (by omega) hlen
   unfold parseTemplate pySplit
-  cases hp : pyItems .bytes t.length t.length t with
+  cases hp : pyItems m t.length t.length t with
   | err e =>
     rw [hp] at this
     obtain ⟨k, j, h1, h2⟩ := this
@@ -37,50 +41,45 @@ theorem split_eq_bytes (t : List Nat) (h : InDomain t) :
     obtain ⟨ps, h1, h2⟩ := this
     rw [h1]; simp [erase, h2, prependLit]
 
-/-- The same for text templates, except that the code accepts the conversion type `b`, which Python
-    only has for bytes: assumed here that Python does not reject the template for a `b` conversion. -/
-theorem split_eq_text_partial (t : List Nat) (h : InDomain t)
-    (hb : ∀ i, pySplit .text t ≠ .err (.unsupported 98 i)) :
-    erase (parseTemplate t) = some (pySplit .text t) := by
-  rcases pySplit_text t with h1 | ⟨i, h1⟩
-  · rw [h1]; exact split_eq_bytes t h
-  · exact absurd h1 (hb i)
+theorem split_eq_bytes (t : List Nat) (h : InDomain t) :
+    erase (parseTemplate false t) = some (pySplit .bytes t) := split_eq .bytes t h
+
+theorem split_eq_text (t : List Nat) (h : InDomain t) :
+    erase (parseTemplate true t) = some (pySplit .text t) := split_eq .text t h
 
 example : InDomain [37, 40, 97, 40, 98, 41, 41, 45, 43, 48, 53, 46, 50, 104, 100, 32, 97, 110, 100, 32, 49, 48, 48, 37, 37] := by decide
-example : erase (parseTemplate [37, 40, 97, 40, 98, 41, 41, 45, 43, 48, 53, 46, 50, 104, 100, 32, 97, 110, 100, 32, 49, 48, 48, 37, 37]) =
+example : erase (parseTemplate true [37, 40, 97, 40, 98, 41, 41, 45, 43, 48, 53, 46, 50, 104, 100, 32, 97, 110, 100, 32, 49, 48, 48, 37, 37]) =
     some (.ok [.conv { key := some [97, 40, 98, 41], flags := ({ zero := true, left := true, sign := true } : Flags),
                        width := some (.amount 5), prec := some (.amount 2), type := 100 },
                .lit [32, 97, 110, 100, 32, 49, 48, 48, 37]]) := by decide
 
-/-- the property as stated, for every template and both modes -/
-def split_eq_full : Prop := ∀ (m : Mode) (t : List Nat), erase (parseTemplate t) = some (pySplit m t)
-
-/-- Witness 1: the text template `%b` is accepted by the code; Python rejects it at index 1. -/
-theorem text_b_accepted :
-    parseTemplate [37, 98] =
+/-- The former witness 1 (repaired by d7ac332): the text template `%b` is rejected at index 1, as
+    Python rejects it; the bytes template is accepted; `%5b%` reports the `b` at index 2. -/
+theorem text_b_repaired :
+    parseTemplate true [37, 98] = .err (.unsupported 98) 1 ∧
+    pySplit .text [37, 98] = .err (.unsupported 98 1) ∧
+    parseTemplate false [37, 98] =
       .ok [(0, .spec { key := none, flags := {}, width := none, prec := none,
                        ftype := .string .bytes, fchar := 98 })] ∧
-    pySplit .text [37, 98] = .err (.unsupported 98 1) := by decide
+    parseTemplate true [37, 53, 98, 37] = .err (.unsupported 98) 2 := by decide
 
-/-- Witness 2: `%2147483648d` is rejected (`IntTooBig` at index 10) although Python accepts widths up
-    to `2^63 - 1`. -/
-theorem width_over_i32_rejected :
-    parseTemplate [37, 50, 49, 52, 55, 52, 56, 51, 54, 52, 56, 100] = .err .intTooBig 10 ∧
+/-- The former witness 2 (repaired by 4850e50): `%2147483648d` is accepted with width 2^31, as Python
+    accepts widths up to `2^63 - 1`; a precision above `i32::MAX` and a width above `isize::MAX` are
+    rejected by both. -/
+theorem width_over_i32_repaired :
+    erase (parseTemplate false [37, 50, 49, 52, 55, 52, 56, 51, 54, 52, 56, 100]) =
+      some (pySplit .bytes [37, 50, 49, 52, 55, 52, 56, 51, 54, 52, 56, 100]) ∧
     pySplit .bytes [37, 50, 49, 52, 55, 52, 56, 51, 54, 52, 56, 100] =
       .ok [.conv { key := none, flags := {}, width := some (.amount 2147483648), prec := none,
-                   type := 100 }] := by decide
-
-theorem split_eq_fails : ¬ split_eq_full := by
-  intro h
-  have := h .text [37, 98]
-  revert this
-  decide
+                   type := 100 }] ∧
+    parseTemplate false [37, 46, 50, 49, 52, 55, 52, 56, 51, 54, 52, 56, 100] = .err .intTooBig 1 ∧
+    pySplit .bytes [37, 46, 50, 49, 52, 55, 52, 56, 51, 54, 52, 56, 100] = .err .tooBig := by decide
 
 /-- Rejections coincide, and an unsupported conversion character is reported with Python's index. -/
-theorem reject_same_index (t : List Nat) (h : InDomain t) :
-    ((∃ k i, parseTemplate t = .err k i) ↔ (∃ e, pySplit .bytes t = .err e)) ∧
-    ∀ c i, parseTemplate t = .err (.unsupported c) i ↔ pySplit .bytes t = .err (.unsupported c i) := by
-  have key := split_eq_bytes t h
+theorem reject_same_index (m : Mode) (t : List Nat) (h : InDomain t) :
+    ((∃ k i, parseTemplate (m == .text) t = .err k i) ↔ (∃ e, pySplit m t = .err e)) ∧
+    ∀ c i, parseTemplate (m == .text) t = .err (.unsupported c) i ↔ pySplit m t = .err (.unsupported c i) := by
+  have key := split_eq m t h
   constructor
   · constructor
     · rintro ⟨k, i, hk⟩
@@ -89,7 +88,7 @@ theorem reject_same_index (t : List Nat) (h : InDomain t) :
       exact ⟨_, key.symm⟩
     · rintro ⟨e, he⟩
       rw [he] at key
-      cases hp : parseTemplate t with
+      cases hp : parseTemplate (m == .text) t with
       | ok ps => rw [hp] at key; simp [erase] at key
       | err k i => exact ⟨k, i, rfl⟩
       | panic => rw [hp] at key; simp [erase] at key
@@ -101,7 +100,7 @@ theorem reject_same_index (t : List Nat) (h : InDomain t) :
       exact key.symm
     · intro he
       rw [he] at key
-      cases hp : parseTemplate t with
+      cases hp : parseTemplate (m == .text) t with
       | ok ps => rw [hp] at key; simp [erase] at key
       | panic => rw [hp] at key; simp [erase] at key
       | err k j =>
@@ -111,12 +110,12 @@ theorem reject_same_index (t : List Nat) (h : InDomain t) :
         obtain ⟨h1, h2⟩ := key
         subst h1; subst h2; rfl
 
-example : parseTemplate [72, 101, 108, 108, 111, 32, 37, 110] = .err (.unsupported 110) 7 := by decide
+example : parseTemplate true [72, 101, 108, 108, 111, 32, 37, 110] = .err (.unsupported 110) 7 := by decide
 
 /-- Every part the splitter returns is well formed: literals are non-empty and the recorded type is
     the one the conversion character stands for (so `erase` forgets nothing but the indices). -/
-theorem parts_wf (t : List Nat) (ps : List (Nat × Part)) (h : parseTemplate t = .ok ps) :
-    ∀ p ∈ ps, wfPart p.2 := parseLoop_wf _ _ _ _ _ _ h
+theorem parts_wf (text : Bool) (t : List Nat) (ps : List (Nat × Part)) (h : parseTemplate text t = .ok ps) :
+    ∀ p ∈ ps, wfPart p.2 := parseLoop_wf _ _ _ _ _ _ _ h
 
 /-- the spec `%5s` / `%.s` as the parser returns them -/
 def spec5s : Spec :=
@@ -272,14 +271,20 @@ theorem float_precision_over_u16_repaired :
    `format!` precision fix — every precision, every double) -/
 
 theorem no_panic_partial :
-    (∀ t, InDomain t → parseTemplate t ≠ .panic) ∧
+    (∀ text t, InDomain t → parseTemplate text t ≠ .panic) ∧
     (∀ spec t n, spec.ftype = .number t → (formatNumber spec n).isSome = true) ∧
     (∀ spec bits k up, spec.ftype = .float k up → (formatFloat spec bits).isSome = true) := by
   refine ⟨?_, ?_, ?_⟩
-  · intro t h hp
-    have := split_eq_bytes t h
-    rw [hp] at this
-    simp [erase] at this
+  · intro text t h hp
+    cases text with
+    | false =>
+      have := split_eq .bytes t h
+      rw [show ((Mode.bytes == Mode.text) = false) from rfl, hp] at this
+      simp [erase] at this
+    | true =>
+      have := split_eq .text t h
+      rw [show ((Mode.text == Mode.text) = true) from rfl, hp] at this
+      simp [erase] at this
   · intro spec t n ht
     rw [number_eq spec t n ht]; rfl
   · intro spec bits k up ht
